@@ -60,6 +60,12 @@ def cases(tier, seed):
                  nwords=0, seed="C12/%d/csr/%d" % (seed, k))
         if c["buffered"] and c["fifo_depth"] < 2:
             c["fifo_depth"] = 2
+        if k in (4, 5) or (tier != "quick" and k % 16 in (4, 5)):
+            # a transfer longer than 2^12 words (offset / length counter widths, base + offset carries); fast memory and
+            # an always-ready consumer keep the run short
+            c.update(length_words=r.choice([4100, 4500, 5000]), loop=False, profile="always", cmd_ready_prob=1.0, extra_lat=(0, 0),
+                     long_stall=0, src_valid=1.0, fifo_depth=16, buffered=False, dw=r.choice([64, 64, 32]), aw=14,
+                     base_words=r.randrange(0, 1 << 13))
         c["name"] = "csr%03d-%s-d%d%s-%s-len%d%s" % (k, c["engine"], c["fifo_depth"], "b" if c["buffered"] else "", c["profile"],
                                                      c["length_words"], "-loop" if c["loop"] else "")
         c["cost"] = 120
@@ -196,7 +202,7 @@ def run_csr_case(c):
     from ..streams import StreamSource, StreamSink
     from ..core import run_sim
     r = random.Random(c["seed"])
-    aw, dw = r.choice([14, 14, 27]), c["dw"]
+    aw, dw = c.get("aw") or r.choice([14, 14, 27]), c["dw"]
     nb = dw // 8
     store = Store(nb)
     port = LiteDRAMNativePort("both", aw, dw)
